@@ -71,7 +71,7 @@ func DrawRegexp(t *rapid.T, names []string) string {
 	return f
 }
 
-var pads = []string{"", " ", "  ", "\t", "\n", " \t"}
+var pads = []string{"", " ", "  ", "\t", "\n", " \t", "\u00a0", "\u2003", "\u0085", "\u3000"}
 
 func pad(t *rapid.T, s string) string {
 	return pads[rapid.IntRange(0, len(pads)-1).Draw(t, "padl")] + s + pads[rapid.IntRange(0, len(pads)-1).Draw(t, "padr")]
